@@ -3,6 +3,7 @@ variables, and canonical rendering of terms.  Used by R-SIFT / R-DUAL / R-BOUNDS
 VP of core.py would conflate `m` (old position) and `i` (newly selected position)."""
 import re
 
+from . import core as _core
 from .core import strip, VIEW_CALLS, OPTION_PAYLOAD_COMBINATORS
 
 
@@ -242,7 +243,7 @@ def _is_queue_or_table(t):
         return True
     if component(t):
         return True
-    if t[0] == "field" and t[2] in ("store", "pq") :
+    if t[0] == "field" and t[2] in _core.CARRIER:
         return True
     return False
 
@@ -289,6 +290,12 @@ def canon(t, closure_body=None, depth=0):
             return "LEN"
         if short == "is_empty" and len(t[2]) == 1 and _is_queue_or_table(t[2][0]):
             return "Eq(0_usize,LEN)"
+        if name == "std::option::Option::map" and len(t[2]) == 2 and closure_body is not None:
+            cl = strip(t[2][1])
+            if cl[0] == "closure":
+                # `opt.map(|x| body)` is `match opt { None => None, Some(x) => Some(body) }` (the body is rendered in terms of
+                # the receiver's payload): the same string as the expanded form
+                return "phi{%s}" % "|".join(sorted(["Option::None()", "Option::Some(%s)" % closure_body(cl[1])]))
         args = [c(a) for a in t[2]]
         if short in ("get_unchecked", "get_unchecked_mut", "index", "index_mut") and len(args) == 2:
             return "%s[%s]" % (args[0], args[1])   # element access, checked or not
@@ -328,7 +335,7 @@ def canon(t, closure_body=None, depth=0):
         return "%s::%s(%s)" % (t[1].split("::")[-1], t[2], ",".join(c(a) for a in t[3]))
     if k == "closure":
         body = closure_body(t[1]) if closure_body else t[1]
-        return "closure{%s}[%s]" % (body, ",".join(c(a) for a in t[2]))
+        return "closure{%s}" % body      # what it captured shows in the body (upvars are resolved to the captured operands)
     if k == "mu":
         # loop-carried value: rendered by the set of one-step generator shapes of the variable(s) it cycles through
         # (copies between loop-carried variables are closed over), independent of where the cycle happened to be cut:
